@@ -2,6 +2,7 @@
    P <hex>                   registry.ParseReference
    R <hexreg> <hexrepo> <hex>  Repository.ParseReference with base
    U <kind> <plain> <hexreg> <hexrepo> <hexref>   URL builders
+   V <repo|tag|digest> <hex>   one component validator
    O <op> <plain> <hexreg> <hexrepo> <hexinput> <hexdescdigest>   requests of a reference-taking operation *)
 let show_verdict v =
   match v with
@@ -40,5 +41,13 @@ let () =
        | ORefused -> Printf.printf "%s REQS\n" id
        | OReqs l -> Printf.printf "%s REQS%s\n" id
                       (String.concat "" (List.map (fun (m, u) -> " " ^ hex_of_str m ^ ":" ^ hex_of_str u) l)))
+    | [id; "V"; kind; h] ->
+      let s = if h = "-" then [] else str_of_hex h in
+      let v = match kind with
+        | "repo" -> valid_repository s
+        | "tag" -> valid_tag s
+        | "digest" -> valid_digest s
+        | _ -> failwith "component" in
+      Printf.printf "%s VALID %s\n" id (if v then "true" else "false")
     | [] -> ()
     | _ -> Printf.printf "BADLINE %s\n" l)
